@@ -8,6 +8,8 @@
 //	              independently written protocol peer that signs the challenge with the wrong key.
 //	mconn       - MConnection pair: messages up to capacity+1 on 1-3 channels sent concurrently.
 //	admission   - Switch.AddPeerWithConnection + authByCA + refuse-list filter against a reference predicate.
+//	refusehistory - the refuse list of a running node as a stateful object (lookups, AdminOp.EndBlock
+//	              additions/removals, listings, restarts) against a set model.
 package c20
 
 import (
